@@ -1,0 +1,27 @@
+//go:build verif
+
+package ipsetsink
+
+// Machine-checked contracts (read by /verif/engine; comment-only, compiled only with -tags verif).
+//
+// The distinct-IP sink (C19: "stores only keyed-hash sketches"): an address enters the sketch only as
+// HMAC-SHA3-256(key, address) under the key the sink was created with - the HMAC is keyed with exactly that key, is fed
+// exactly the address, and what is added to the sketch is its digest. (HMAC, SHA-3 and the HyperLogLog sketch
+// themselves are external libraries.)
+//@ immutable IPSetSink.ipMaskingKey
+//
+//@ func NewIPSetSink(maskingKey string) (r *IPSetSink)
+//@   props C19
+//@   flag nosafety
+//@   ensures {remembers-the-key-it-was-given} r != nil && r.ipMaskingKey == maskingKey
+//
+//@ ghost var digest ref
+//@ func (s *IPSetSink) maskIPAddress(ipAddress string) (r []byte)
+//@   props C19
+//@   flag nosafety
+//@   requires s != nil
+//@   at call New assert {keyed-with-the-sinks-key} string(arg1) == s.ipMaskingKey
+//@   at call Write assert {fed-exactly-the-address} string(arg0) == ipAddress && calls(New) == 1 && calls(Write) == 0
+//@   after call Sum ghost digest = base(ret0)
+//@   at call Sum assert {one-address-per-digest} calls(Write) == 1
+//@   ensures {returns-the-digest} base(r) == digest && calls(Sum) == 1
